@@ -671,6 +671,11 @@ func runR016(c *core.Ctx) {
 		w := map[types.Object]bool{}
 		fieldConstsUsed(rinf, dataPath, wd.Body, w)
 		if pair.r == "" {
+			for _, mb := range constructedTypeMethods(c, rinf, wd.Body) {
+				if c.M.PkgOf(mb.typ) == c.M.Pkg("restli") {
+					fieldConstsUsed(mb.inf, dataPath, mb.body, w)
+				}
+			}
 			// read side is Elements.unmarshalRestLi in the data package
 			r := byType["Elements"]
 			okAll := r != nil
@@ -686,27 +691,12 @@ func runR016(c *core.Ctx) {
 		r := map[types.Object]bool{}
 		fieldConstsUsed(rinf, dataPath, rd.Body, r)
 		// the writer may build its envelope through a named marshaler type instead of a closure: the methods of the
-		// package-local struct types it instantiates write on its behalf
-		for _, side := range []struct {
-			body ast.Node
-			into map[types.Object]bool
-		}{{wd.Body, w}, {rd.Body, r}} {
-			ast.Inspect(side.body, func(n ast.Node) bool {
-				cl, ok := n.(*ast.CompositeLit)
-				if !ok {
-					return true
-				}
-				nn := namedOf(rinf.Types[cl].Type)
-				if nn == nil || nn.Obj().Pkg() == nil || nn.Obj().Pkg() != c.M.Pkg("restli").Types {
-					return true
-				}
-				for i := 0; i < nn.NumMethods(); i++ {
-					if md := c.M.Decl(nn.Method(i).Origin()); md != nil && md.Body != nil {
-						fieldConstsUsed(rinf, dataPath, md.Body, side.into)
-					}
-				}
-				return true
-			})
+		// package-local types it instantiates (literal or conversion) write on its behalf
+		for _, mb := range constructedTypeMethods(c, rinf, wd.Body) {
+			fieldConstsUsed(mb.inf, dataPath, mb.body, w)
+		}
+		for _, mb := range constructedTypeMethods(c, rinf, rd.Body) {
+			fieldConstsUsed(mb.inf, dataPath, mb.body, r)
 		}
 		same := len(w) == len(r) && len(w) > 0
 		for k := range w {
@@ -1310,4 +1300,46 @@ func isMaxFloat(inf *types.Info, e ast.Expr) (struct{}, bool) {
 		return struct{}{}, true
 	}
 	return struct{}{}, false
+}
+
+// methodBody is the body of a method of a module type, with the types.Info it is checked in.
+type methodBody struct {
+	typ  *types.TypeName
+	body *ast.BlockStmt
+	inf  *types.Info
+}
+
+// constructedTypeMethods lists the methods of the module's named types that the given code constructs with a composite
+// literal or a conversion: when a closure is given a name as a small marshaler type, these methods run on its behalf.
+func constructedTypeMethods(c *core.Ctx, inf *types.Info, body ast.Node) []methodBody {
+	var out []methodBody
+	seen := map[*types.TypeName]bool{}
+	add := func(t types.Type) {
+		nn := namedOf(t)
+		if nn == nil || seen[nn.Obj()] {
+			return
+		}
+		p := c.M.PkgOf(nn.Obj())
+		if p == nil {
+			return
+		}
+		seen[nn.Obj()] = true
+		for k := 0; k < nn.NumMethods(); k++ {
+			if d := c.M.Decl(nn.Method(k).Origin()); d != nil && d.Body != nil {
+				out = append(out, methodBody{nn.Obj(), d.Body, p.TypesInfo})
+			}
+		}
+	}
+	ast.Inspect(body, func(n ast.Node) bool {
+		switch x := n.(type) {
+		case *ast.CompositeLit:
+			add(inf.Types[x].Type)
+		case *ast.CallExpr:
+			if tv, isConv := inf.Types[x.Fun]; isConv && tv.IsType() {
+				add(tv.Type)
+			}
+		}
+		return true
+	})
+	return out
 }
